@@ -627,6 +627,31 @@ func c05Check(s []sym, tight bool) *failure {
 	return nil
 }
 
+// lexContexts: one id in its spellings, placed in the syntactic contexts where scanner features interact
+func lexContexts(id string) []string {
+	spell := []string{id, id + "+", id + "-only", id + "-or-later", id + "-or-later+", id + "-only+", strings.ToLower(id) + "-or-later", strings.ToUpper(id)}
+	ctx := []string{"%s", "(%s)", "( %s )", "((%s))", "%s AND MIT", "MIT AND %s", "(%s) OR ISC", "ISC OR (%s)", "%s WITH Classpath-exception-2.0",
+		"(%s WITH Classpath-exception-2.0)", "(%s WITH Classpath-exception-2.0) AND MIT", "MIT OR (%s AND ISC)", "MIT OR (ISC AND %s)", "%s)", "(%s",
+		"%s +", "%s WITH", "%s:", "%s AND", "%s OR %s", "(%s AND %s) OR MIT", "%s  AND  (MIT)", "LicenseRef-x AND %s", "%s AND LicenseRef-x",
+		"MIT WITH %s", "(MIT WITH %s)"}
+	var out []string
+	for _, sp := range spell {
+		for _, c := range ctx {
+			out = append(out, strings.ReplaceAll(c, "%s", sp))
+		}
+	}
+	return out
+}
+
+// extractSetNorm: "ok a,b,c" with the elements sorted (the order of ExtractLicenses' output is C13's business)
+func extractSetNorm(s string) string {
+	if !strings.HasPrefix(s, "ok") {
+		return "err"
+	}
+	l := unhxl(strings.TrimSpace(strings.TrimPrefix(s, "ok")))
+	return "ok " + hxl(uniqSorted(l))
+}
+
 func foldIn(list []string, w string) bool { _, ok := canonicalIn(list, w); return ok }
 
 // specWord: (is a license id, is an exception id) according to the property text
@@ -819,6 +844,29 @@ func init() {
 				flushCorr()
 			}
 		}
+		// every listed id x spellings x syntactic contexts (parentheses, operators, WITH, '+', truncations): the places where
+		// the -or-later rewrite, the '+' look-ahead and the look-behind meet the parser.  Model vs implementation on
+		// accept/reject AND on the extracted terms.
+		for i, id := range ids {
+			if strings.HasSuffix(id, "+") || (!thorough() && i%3 != int(seed%3)) {
+				continue
+			}
+			for _, text := range lexContexts(id) {
+				res.Evaluations++
+				count("lexical_contexts")
+				got := implVal([]string{text})
+				acc := got.panicv == nil && got.ok
+				k := &kase{Expr: text, ExprHex: hx(text)}
+				correspondNorm("P "+hx(text), map[bool]string{true: "ok", false: "err"}[acc], "accept/reject in a lexical context: model parse vs ValidateLicenses", k, okErr)
+				if acc {
+					x := implExt(text)
+					correspondNorm("E "+hx(text), x.String(), "extracted terms in a lexical context: model vs implementation", k, extractSetNorm)
+				}
+			}
+			if len(corrQ) > 100000 {
+				flushCorr()
+			}
+		}
 		res.Exhaustive = false
 	}
 	replays["C05"] = func(k *kase) *failure {
@@ -980,6 +1028,31 @@ func init() {
 			}
 			if i%1499 == 0 {
 				sample(show(s))
+			}
+			if len(corrQ) > 50000 {
+				flushCorr()
+			}
+		}
+		// every listed id in the spellings that trigger the rewrite / look-ahead, as a prefix of the offending lexeme
+		allIDs := append(append([]string{}, tblActive...), tblDeprecated...)
+		for i, id := range allIDs {
+			if strings.HasSuffix(id, "+") || (!thorough() && i%4 != int(seed%4)) {
+				continue
+			}
+			for _, sp := range []string{id, id + "+", id + "-or-later", id + "-or-later+", id + "-only", strings.ToLower(id) + "-or-later"} {
+				if !implValid(sp) {
+					continue
+				}
+				for _, pre := range []string{sp + " AND ", "(" + sp + ") OR ", sp + " WITH Classpath-exception-2.0 AND ", "( " + sp + " ) AND (", sp + " AND " + sp + " OR  "} {
+					bad, kind := "FOO-" + itoa(i), "unknown"
+					if i%7 == 0 {
+						bad, kind = "LicenseRef-", "missing"
+					}
+					if f := c15Check(pre+bad, kind, i%3); f != nil {
+						fail(*f)
+					}
+					count("id_prefix_contexts")
+				}
 			}
 			if len(corrQ) > 50000 {
 				flushCorr()
